@@ -229,6 +229,22 @@ func runC12(src sim.Source, o Opts) *Result {
 					if ot := otherTokens(fp, cl.tok); len(ot) > 0 {
 						fail("clone of request %s shows data of %v: %s", cl.tok, ot, fp)
 					}
+					if cl.seen == 1 {
+						// a copy is a Context like any other: what wraps a writer (CloneWith) can be derived from it, later
+						// and elsewhere, and shows the copy's route and parameters
+						func() {
+							defer func() {
+								if p := recover(); p != nil {
+									fail("CloneWith on the clone of request %s panicked: %v", cl.tok, p)
+								}
+							}()
+							cw := cl.c.CloneWith(world.NewRW(world.NewConn()), cl.c.Request())
+							if cw.Pattern() != cl.c.Pattern() || world.FmtParams(world.CollectParams(cw)) != world.FmtParams(world.CollectParams(cl.c)) {
+								fail("CloneWith on the clone of request %s differs from it: pattern %q, params [%s]", cl.tok, cw.Pattern(), world.FmtParams(world.CollectParams(cw)))
+							}
+							cw.Close()
+						}()
+					}
 				}
 			}
 			rerange := func(when string) {
